@@ -110,7 +110,7 @@ def coq_op(o):
         return "ZNext " + F.zlist(o[1:])
     if k == "q":
         return "ZNextSq " + F.zlist(o[1:])
-    return {"c": "ZCurrent", "r": "ZReset"}[k]
+    return {"c": "ZCurrent", "r": "ZReset", "w": "ZWindow"}[k]
 
 
 def build(item, ops=None):
@@ -127,8 +127,9 @@ def build(item, ops=None):
         it["cost"] = 3 + sum(len(o) for o in it["ops"]) * 7
     else:
         flat = [v for fr in it["frames"] for v in fr]
-        it["line"] = f"A {it['fmt']} {it['nostd']} {it['chans']} {it['n']} {it['sq']} {it['k']} ; {' '.join(map(str, flat))}"
-        it["coq"] = (f"ACase {it['fmt']} {it['nostd']} {it['chans']} {it['n']} {F.zlistlist(it['frames'])} {it['sq']} {it['k']}")
+        it.setdefault("fin", 0)
+        it["line"] = f"A {it['fmt']} {it['nostd']} {it['chans']} {it['n']} {it['sq']} {it['k']} {it['fin']} ; {' '.join(map(str, flat))}"
+        it["coq"] = (f"ACase {it['fmt']} {it['nostd']} {it['chans']} {it['n']} {F.zlistlist(it['frames'])} {it['sq']} {it['k']} {it['fin']}")
         it["cost"] = 3 + it["k"] * it["chans"] * 7
         it["ops"] = []
     return it
@@ -153,7 +154,7 @@ def gen_history(r, fmt, chans, n, pattern, nframes, resets):
     return ops
 
 
-def gen_cases(rng, tier, nostd_ok):
+def gen_cases(rng, tier, nostd_ok, nostd_adaptor_ok=False):
     items = []
     quick = tier == "quick"
     n_hist = 300 if quick else 1100
@@ -204,12 +205,66 @@ def gen_cases(rng, tier, nostd_ok):
         frames = [[enc(fmt, sample_value(r, fmt, r.choice(["nominal", "loudquiet"]), i, nfr)) for _ in range(chans)] for i in range(nfr)]
         items.append(build(dict(kind="A", fmt=fmt, nostd=0, chans=chans, n=n, frames=frames, sq=int(r.below(4) == 0),
                                 k=nfr + r.below(4), pattern="adaptor")))
+    # finite source (signal::from_iter) pulled well past exhaustion: the equilibrium frames that a
+    # spent source yields must keep entering the window (the RMS decays to 0 within N steps);
+    # is_exhausted observed before and after every call; float and integer frames; std and no_std
+    n_fin = 48 if quick else 240
+    for k in range(n_fin):
+        r = rng.fork(f"fin{k}")
+        fmt = [0, 1, 2, 3][k % 4]
+        chans = r.range(1, 4)
+        n = r.choice([1, 2, 3, 7])
+        nfr = r.range(0, 6) if r.chance(1, 6) else r.range(1, 6)
+        frames = [[enc(fmt, sample_value(r, fmt, r.choice(["nominal", "const", "loudquiet"]), i, nfr)) for _ in range(chans)] for i in range(nfr)]
+        nostd = 1 if (nostd_adaptor_ok and (k // 4) % 2 == 1) else 0
+        items.append(build(dict(kind="A", fmt=fmt, nostd=nostd, chans=chans, n=n, frames=frames, sq=int(r.below(5) == 0),
+                                k=nfr + 2 * n + r.range(0, 3), fin=1, pattern="adaptor_finite_past_end")))
+    # reset on a state whose running sum is EXACTLY zero while the window still holds small non-zero
+    # squares: large sample, j small samples (their squares are absorbed by rounding next to the large
+    # one), zeros until the large square is evicted (sum = large - large = 0), window observed, reset,
+    # window observed (must be all zero), then small non-silent input, window/current observed
+    for fmt in (0, 1, 2):
+        for n in (2, 3, 7):
+            for chans in (1, 2):
+                for nostd in ((0, 1) if nostd_ok else (0,)):
+                    r = rng.fork(f"stale{fmt}_{n}_{chans}_{nostd}")
+                    large = {0: 1.0, 1: 1.0, 2: -32768}[fmt]
+                    def small(scale=1.0):
+                        if fmt == 0:
+                            return r.choice([1, -1]) * scale * (5e-5 + r.below(1000) * 1e-7)
+                        if fmt == 1:
+                            return r.choice([1, -1]) * scale * (1e-9 + r.below(1000) * 4e-12)
+                        return r.choice([1, -1]) * max(1, int(scale * r.range(2, 5)))
+                    j = r.range(1, n - 1)
+                    ops = [["n"] + [enc(fmt, large)] * chans]
+                    ops += [["n"] + [enc(fmt, small()) for _ in range(chans)] for _ in range(j)]
+                    ops += [["n"] + [enc(fmt, 0 if fmt == 2 else 0.0)] * chans for _ in range(n - j)]
+                    ops += [["w"], ["r"], ["w"], ["c"]]
+                    ops += [["n"] + [enc(fmt, small(r.choice([0.3, 0.5, 1.0, 2.0]))) for _ in range(chans)] for _ in range(n + 2)]
+                    ops += [["w"], ["c"]]
+                    items.append(build(dict(kind="R", fmt=fmt, nostd=nostd, chans=chans, first=r.below(n), init=[[0] * chans for _ in range(n)],
+                                            ops=ops, pattern="reset_on_zero_sum_stale_window", resets=True)))
     return items
+
+
+def stale_zero_sum_reached(it, obs_line):
+    """for the reset_on_zero_sum_stale_window family: at the reset the observed square_sum is all +0 while
+    the observed window is not all zero (the state the family is built to reach)"""
+    obs = obs_line.split(";")
+    # two observations per op; find the 'w' immediately before the 'r'
+    for i, o in enumerate(it["ops"]):
+        if o[0] == "r" and i > 0 and it["ops"][i - 1][0] == "w":
+            win = obs[2 * (i - 1)].split()[1:]
+            ssum = obs[2 * (i - 1) + 1].split()[1:]
+            return all(v == "0" for v in ssum) and any(v != "0" for v in win)
+    return False
 
 
 def nontrivial(it):
     """eviction of a non-zero square happens (more than N pushes since new/reset) AND
     (loud-then-quiet pattern OR a reset strictly inside the history)"""
+    if it.get("pattern") == "adaptor_finite_past_end":
+        return len(it["frames"]) > 0 and it["k"] >= len(it["frames"]) + 2 * it["n"]
     if it["kind"] != "R" or not it["init"]:
         return False
     n = len(it["init"])
@@ -281,8 +336,10 @@ def correspond_codes(bins, items, tag):
     """bins: {0: std binary, 1: no_std binary}. Returns (obs lines, codes, errors)."""
     outl = [None] * len(items)
     errors = []
+    def which(it):
+        return "nightly" if (it["nostd"] == 1 and it["kind"] == "A") else it["nostd"]
     for ns, path in bins.items():
-        idx = [i for i, it in enumerate(items) if it["nostd"] == ns]
+        idx = [i for i, it in enumerate(items) if which(it) == ns]
         if not idx:
             continue
         rc, out, err = F.run_bin_parallel(path, [items[i]["line"] for i in idx])
@@ -312,7 +369,7 @@ def load_corpus():
     return items
 
 
-CASE_KEYS = ("kind", "fmt", "nostd", "chans", "first", "init", "ops", "n", "frames", "sq", "k", "pattern", "resets")
+CASE_KEYS = ("kind", "fmt", "nostd", "chans", "first", "init", "ops", "n", "frames", "sq", "k", "fin", "pattern", "resets")
 
 
 def main(rep, tier, seed):
@@ -332,12 +389,17 @@ def main(rep, tier, seed):
     bins = {0: bin_std}
     if ok_n:
         bins[1] = bin_nostd
+    ok_nn, nnlog, bin_nightly = F.nostd_build("c11")   # cargo +nightly: dasp_signal without std (adaptor)
+    if ok_nn:
+        bins["nightly"] = bin_nightly
+    else:
+        rep.notes.append("C11 note: no_std dasp_signal adaptor not exercised (cargo +nightly build of harness_nightly_nostd failed): " + nnlog[-300:].replace("\n", " "))
     fb_n, fb_bad, fb_err = floatbase.run(rng.fork("floatbase"), 1500 if tier == "quick" else 6000)
     for name, msg in fb_err:
         rep.violation("floatbase_error", {"kind": "float base validation could not be evaluated", "where": name, "log": msg}, no_input=True)
     for c, o in fb_bad[:3]:
         rep.violation("floatbase_mismatch", {"kind": "Base/Float.v disagrees with rustc on an IEEE operation", "case": c, "implementation": o}, no_input=True)
-    items = load_corpus() + gen_cases(rng, tier, ok_n)
+    items = load_corpus() + gen_cases(rng, tier, ok_n, ok_nn)
     outl, codes, errors = correspond_codes(bins, items, "c11")
     for name, msg in errors:
         rep.violation("correspondence_error_" + name.replace("/", "_"), {"kind": "correspondence could not be evaluated", "where": name, "log": msg}, no_input=True)
@@ -352,7 +414,7 @@ def main(rep, tier, seed):
 
     def describe(it, small=None):
         s = small or it
-        rc, out, _ = F.run_bin(bins[s["nostd"]], [s["line"]])
+        rc, out, _ = F.run_bin(bins["nightly" if (s["nostd"] == 1 and s["kind"] == "A") else s["nostd"]], [s["line"]])
         _, model = F.coq_eval("c11", HEADER, f"run_case ({s['coq']})")
         return {"case": {k: s[k] for k in CASE_KEYS if k in s}, "harness_line": s["line"],
                 "build": "no_std" if s["nostd"] else "std", "implementation_observations": out,
@@ -370,7 +432,9 @@ def main(rep, tier, seed):
     for idx in mism[:3]:
         small = shrink(items[idx], 1)
         p = describe(items[idx], small)
-        p["kind"] = "model/implementation disagreement: dasp_rms does not compute what the proved model computes (bit-exact comparison of outputs, running sum, window)"
+        p["kind"] = ("model/implementation disagreement: the dasp_signal rms adaptor is not the detector fed the source frames one by one (outputs, is_exhausted, frames pulled compared with the proved model)"
+                     if small["kind"] == "A" else
+                     "model/implementation disagreement: dasp_rms does not compute what the proved model computes (bit-exact comparison of outputs, running sum, window)")
         p["original_case_index"] = idx
         rep.violation(f"case{idx}", p)
     for idx in other_fail[:3]:
@@ -389,7 +453,12 @@ def main(rep, tier, seed):
             p = describe(items[idx], small)
             p["kind"] = "finite input whose square overflows the float companion: outputs become inf/NaN (class K4, not listed in KNOWN_FINDINGS.json)"
             rep.violation(f"k4_{idx}", p)
-    dist = {"floatbase_cases": fb_n, "floatbase_mismatches": len(fb_bad), "k4_class_cases": len(k4), "k4_cases_failing_verdict": len(k4_fail)}
+    stale = [i for i, it in enumerate(items) if it.get("pattern") == "reset_on_zero_sum_stale_window"]
+    dist = {"floatbase_cases": fb_n, "floatbase_mismatches": len(fb_bad), "k4_class_cases": len(k4), "k4_cases_failing_verdict": len(k4_fail),
+            "reset_on_zero_sum_stale_window_cases": len(stale),
+            "of_which_reach_sum_exactly_zero_with_nonzero_window": sum(1 for i in stale if stale_zero_sum_reached(items[i], outl[i])),
+            "adaptor_finite_source_cases": sum(1 for it in items if it.get("pattern") == "adaptor_finite_past_end"),
+            "no_std_adaptor": "exercised (cargo +nightly)" if ok_nn else "not built"}
     return finish(rep, info, items, outl, codes, dist, ok_n, bad=mism + other_fail)
 
 
@@ -425,7 +494,7 @@ def finish(rep, info, items, outl, codes, dist, nostd_ok, bad=()):
             "modelled, not verified: frames as lists, usize as nat, Frame::map/zip_map as list map in channel order, to_float_frame conversions of i16/u8 (C02) as `s as f32 / 2^k`"],
         "theorems": th, "axioms_reported": info.get("axioms", []),
         "evaluations": len(items), "distinct_nontrivial": nontriv,
-        "rule": "non-trivial = detector history with more than N pushes since new/reset (a non-zero square is evicted, the subtract-evicted path and the clamp matter) AND (loud-then-quiet pattern OR a reset strictly inside the history)",
+        "rule": "non-trivial = detector history with more than N pushes since new/reset (a non-zero square is evicted, the subtract-evicted path and the clamp matter) AND (loud-then-quiet pattern OR a reset strictly inside the history; this includes the family that resets at a running sum of exactly 0 over a non-zero window), or an adaptor over a non-empty finite source pulled at least 2N frames past its exhaustion",
         "samples": samples, "input_distribution": dist, "disagreements": len(bad),
         "error_bound": ("tolerance E (Dsp/RmsErr.v) is PROVED: c11_drift_bound" if drift_proved else
                         "tolerance E (Dsp/RmsErr.v, the same Coq function evaluated in the verdict) is ARGUED, NOT PROVED end to end for the IEEE run: "
@@ -438,7 +507,7 @@ def finish(rep, info, items, outl, codes, dist, nostd_ok, bad=()):
         "x*x and the running sum do not overflow (class K4 otherwise)",
         "window length N <= 2^24 for the IEEE statements (`len as f32` is exact); the exact-arithmetic theorems hold for every N >= 1",
         "the window handed to Rms::new is zero-initialised (the property's precondition); other windows are compared bit-exactly only",
-        "the dasp_signal adaptor is exercised in the std build only (dasp_signal without `std` needs a nightly compiler: feature(core_intrinsics))"])
+        "the no_std dasp_signal adaptor is exercised through harness_nightly_nostd (cargo +nightly: feature(core_intrinsics)); the no_std detector through the stable harness_nostd"])
 
 
 def replay(path):
@@ -447,7 +516,10 @@ def replay(path):
     ok, blog, bin_std = F.harness_build("c11")
     ok_n, nlog, bin_nostd = nostd_build()
     bins = {0: bin_std, 1: bin_nostd}
-    rc, out, _ = F.run_bin(bins[it["nostd"]], [it["line"]])
+    ok_nn, _, bin_nightly = F.nostd_build("c11")
+    if ok_nn:
+        bins["nightly"] = bin_nightly
+    rc, out, _ = F.run_bin(bins["nightly" if (it["nostd"] == 1 and it["kind"] == "A") else it["nostd"]], [it["line"]])
     _, model = F.coq_eval("c11", HEADER, f"run_case ({it['coq']})")
     print("case:", it["line"])
     print("implementation:", out)
